@@ -49,7 +49,7 @@ REAL_VS_STUB = {
              'CPython containers and allocator (malloc under ASan)'],
     'stub_or_simulator_owned': ['all user callbacks', 'which container is mutated how at which callback', 'GC timing'],
 }
-EXPECTED_PROBES = ('state:field', 'state:bytes-flip', 'state:drop-node', 'state-load:loaded', 'state-load:rejected', 'liar-sweep', 'mismatch-sweep', 'mut:rotate', 'index-sweep', 'leafcount-sweep', 'mut:delete_front', 'mut:delete_back', 'mut:clear', 'mut:append', 'mut:replace', 're:iter_next',
+EXPECTED_PROBES = ('field-liar-sweep', 'state:field', 'state:bytes-flip', 'state:drop-node', 'state-load:loaded', 'state-load:rejected', 'liar-sweep', 'mismatch-sweep', 'mut:rotate', 'index-sweep', 'leafcount-sweep', 'mut:delete_front', 'mut:delete_back', 'mut:clear', 'mut:append', 'mut:replace', 're:iter_next',
                    're:flatten', 're:unflatten', 're:register', 're:gc', 're:dictmode', 'outcome:exception', 'outcome:consistent')
 
 TRAVERSALS = ('flatten', 'flatten_with_path', 'iter', 'flatten_up_to', 'map', 'map_with_path', 'broadcast_prefix',
@@ -989,6 +989,37 @@ def run_confusion(job, io):
                 except (ValueError, TypeError, RuntimeError, KeyError, IndexError):
                     oc = 'exc'
                 keys.add('cf|mismatch|%s|%s|%s|%s' % (opn, container_kind(victim) if not (isinstance(victim, tuple) and hasattr(victim, '_fields')) else 'namedtuple', how, oc))
+            # the treespec of the mismatching twin itself (a namedtuple node whose arity differs from len(_fields) among them),
+            # through every method: text, paths, accessors, pickle, ...
+            try:
+                s2 = optree.tree_structure(t2, **kwm)
+            except (ValueError, TypeError, RuntimeError):
+                s2 = None
+            if s2 is not None and tape.draw(2, 'mm-use') == 1:
+                exercise_spec(s2, io, 'confusion:mismatch-spec:%s' % how, tape, probes)
+        # namedtuple classes that LIE about their fields: a subclass whose _fields names more (or fewer) fields than the tuple
+        # holds, instances made by tuple.__new__ with another length, and _fields re-assigned after the treespec was made
+        from collections import namedtuple as _ntf
+        P2 = _ntf('P2', ['x', 'y'])
+        QMore = type('QMore', (P2,), {'_fields': P2._fields + ('z0', 'z1', 'z2')[:1 + tape.draw(3, 'fl-extra')], '__slots__': ()})
+        QLess = type('QLess', (P2,), {'_fields': ('x',), '__slots__': ()})
+        QGrow = type('QGrow', (P2,), {'__slots__': ()})
+        liars = [('more', QMore(U.Leaf(1), U.Leaf(2))), ('less', QLess(U.Leaf(1), U.Leaf(2))), ('new-short', tuple.__new__(P2, (U.Leaf(1),))),
+                 ('new-long', tuple.__new__(P2, (U.Leaf(1), U.Leaf(2), U.Leaf(3), U.Leaf(4)))), ('new-empty', tuple.__new__(P2, ())), ('grow', QGrow(U.Leaf(1), U.Leaf(2)))]
+        for lname, inst in liars:
+            probes['field-liar-sweep'] += 1
+            io.progress({'site': 'confusion:field-liar:%s' % lname, 'tape': tape.values})
+            try:
+                fl_spec = optree.tree_structure({'a': inst, 'b': [U.Leaf(9), inst]})
+            except (ValueError, TypeError, RuntimeError):
+                keys.add('cf|field-liar|%s|flatten-exc' % lname)
+                continue
+            if lname == 'grow':
+                QGrow._fields = ('x', 'y', 'w', 'v')
+            exercise_spec(fl_spec, io, 'confusion:field-liar:%s' % lname, tape, probes)
+            exercise_spec(fl_spec.child(0), io, 'confusion:field-liar-child:%s' % lname, tape, probes)
+            keys.add('cf|field-liar|%s|used' % lname)
+        del P2, QMore, QLess, QGrow, liars
         # containers whose __len__ lies, as the children a custom flatten function returns and as leaves for unflatten
         fca = [f for (c, n, f) in reg.live if c is U.CA][0]
         liar_tree = [U.CA([U.Leaf(1), U.Leaf(2), U.Leaf(3)], 0), (U.CA([], 1),)]
